@@ -296,7 +296,8 @@ func corpus() []corpusApp {
 			add(fmt.Sprintf("end-%d-%s", depth, kind), func() *app.App { return c20App(sp) }, []engine.Config{{}})
 		}
 	}
-	add("echo", echoApp, []engine.Config{{}, {OutputSize: 20}})
+	add("echo", echoApp, []engine.Config{{}, {OutputSize: 20}, {CacheSize: 14}})
+	add("form", formApp, []engine.Config{{}, {CacheSize: 10}, {CacheSize: 40, OutputSize: 60}})
 	// repository examples, read from the tree this binary is linked against
 	if dir := c16RepoDir(); dir != "" {
 		ds, _ := filepath.Glob(filepath.Join(dir, "examples", "*"))
@@ -324,4 +325,19 @@ func corpusByName(n string) (corpusApp, bool) {
 		}
 	}
 	return corpusApp{}, false
+}
+
+// formApp: a field that is RELOADed with an echo of whatever the client types (any length up to the
+// input limit), so that with a small cache capacity the update is refused for capacity.
+func formApp() *app.App {
+	a := app.New("form")
+	a.Node("root", "field: {{.fld}}", codec.Ins{Op: codec.LOAD, Sym: "fld", N: 300}, codec.Ins{Op: codec.MAP, Sym: "fld"}, codec.Ins{Op: codec.MOUT, Sym: "edit", Sel: "1"}, codec.Ins{Op: codec.HALT},
+		codec.Ins{Op: codec.INCMP, Sym: "ed", Sel: "*"})
+	a.Node("ed", "ed", codec.Ins{Op: codec.RELOAD, Sym: "fld"}, codec.Ins{Op: codec.MOVE, Sym: "_"})
+	a.Node("_catch", "catch", codec.Ins{Op: codec.HALT}, codec.Ins{Op: codec.INCMP, Sym: "_", Sel: "*"})
+	a.Func("fld", func(e *app.Env, sym string, in []byte, l string) (resource.Result, error) {
+		return resource.Result{Content: "<" + string(in) + ">"}, nil
+	})
+	a.WithInputs("1", "ab", "abcdefgh")
+	return a
 }
